@@ -129,6 +129,7 @@ def applyWhole (ign : Bool) (k : String) (r : Option Val) : R (Option Val) :=
       else if k = "$toLower" || k = "$toUpper" then .ok (some (.str ""))   -- `_parse_or_nothing`
       else if datePartOps.contains k then .ok (some .null)                 -- `_parse_or_nothing`
       else if k = "$concatArrays" then .ok (if ign then some .null else none)  -- `parse_many([value])`
+      else if groupingOps.contains k then (groupingInExpr k []).map some   -- nothing to accumulate
       else .ok none                                  -- the KeyError propagates
     | some v =>
       if k = "$toLower" then (caseOp false v).map some
@@ -153,7 +154,7 @@ def applyList (k : String) (vals : List Val) : R (Option Val) :=
   else if k = "$arrayElemAt" then
     (match vals with | [a, i] => arrayElemAtOp a i | _ => .error .valueErr)
   else if groupingOps.contains k then
-    (if k = "$first" || k = "$last" then .error .typeErr else (groupingInExpr k vals).map some)
+    (groupingInExpr k vals).map some
   else if k = "$concat" then (concatOp vals).map some
   else if k = "$concatArrays" then (concatArraysOp vals).map some
   else if k = "$split" then
@@ -166,27 +167,34 @@ def applyList (k : String) (vals : List Val) : R (Option Val) :=
 
 /-- which list handlers use `parse_many` (missing → None under `ignore_missing_keys`) -/
 def usesParseMany (k : String) : Bool :=
-  arithmeticOps.contains k || groupingOps.contains k || k = "$concat" || k = "$concatArrays"
+  arithmeticOps.contains k || k = "$concat" || k = "$concatArrays"
 
 /-- which list handlers read every operand with `_parse_or_nothing` and take NOTHING as None,
-    whatever `ignore_missing_keys` says -/
-def usesParseOrNothing (k : String) : Bool := k = "$arrayElemAt" || k = "$strcasecmp"
+    whatever `ignore_missing_keys` says (the grouping operators: a missing operand counts like a
+    null one, it is not accumulated) -/
+def usesParseOrNothing (k : String) : Bool :=
+  k = "$arrayElemAt" || k = "$strcasecmp" || groupingOps.contains k
 
 /-- is a missing operand of list handler `k` read as null? -/
 def nullOnMissing (ign : Bool) (k : String) : Bool :=
   (usesParseMany k && ign) || usesParseOrNothing k
 
-/-- the argument-count checks that come before any parsing -/
+/-- the operators of `_OPERATOR_ARITY`: a fixed number of arguments (or at least two), checked in
+    `_Parser.parse` before any argument is evaluated, a bare operand counting as one -/
+def arityOps : List String :=
+  comparisonOps ++ binaryArithOps ++ ["$arrayElemAt", "$cond", "$ifNull", "$in", "$setEquals", "$split"]
+
+/-- the argument-count checks that come before any parsing: `_argument_list` for the operators
+    of `_OPERATOR_ARITY` ("Expression $op takes exactly N arguments" / "needs at least two
+    arguments": OperationFailure), the handlers' own checks for `$strcasecmp $substr $slice` -/
 def arityErr (k : String) (n : Nat) : Option Err :=
-  if binaryArithOps.contains k && n ≠ 2 then some .opFail
-  else if comparisonOps.contains k && n ≠ 2 then some .other          -- AssertionError
-  else if (k = "$arrayElemAt" || k = "$in") && n ≠ 2 then some .valueErr  -- unpacking
-  else if (k = "$split" || k = "$strcasecmp") && n ≠ 2 then some .opFail
+  if (binaryArithOps.contains k || comparisonOps.contains k) && n ≠ 2 then some .opFail
+  else if (k = "$arrayElemAt" || k = "$in" || k = "$split") && n ≠ 2 then some .opFail
+  else if k = "$cond" && n ≠ 3 then some .opFail
+  else if (k = "$ifNull" || k = "$setEquals") && n < 2 then some .opFail
+  else if k = "$strcasecmp" && n ≠ 2 then some .opFail
   else if k = "$substr" && n ≠ 3 then some .opFail
   else if k = "$slice" && (n < 2 || n > 3) then some .opFail
-  else if k = "$cond" && n ≠ 3 then some .valueErr
-  else if k = "$ifNull" && n < 2 then some .opFail                    -- needs at least two arguments
-  else if (k = "$first" || k = "$last") then some .typeErr            -- a generator is not subscriptable
   else none
 
 def listOps : List String :=
@@ -196,10 +204,9 @@ def listOps : List String :=
 /-- a list handler given something that is not a list, a document handler given something that
     is not a document (aggregate.py: the `isinstance` checks, `len()`, unpacking, iteration) -/
 def argShapeErr (k : String) (v : Val) : R (Option Val) :=
-  if binaryArithOps.contains k then .error .opFail
+  if arityOps.contains k then .error .opFail                          -- one argument: wrong arity
   else if k = "$add" || k = "$multiply" then .error .other            -- AssertionError
   else if ["$slice", "$let", "$map", "$filter", "$switch"].contains k then .error .opFail
-  else if k = "$cond" then .error .other                              -- UnboundLocalError
   else iterErr v
 
 /-- list comprehension over the items of `$map`: `_parse_or_nothing` of `in` per item, a missing
